@@ -100,6 +100,11 @@ Proof. exact remove_isolated_invents_no_cell. Qed.
    iteration over a list that shrinks under the iterator) loses no cell *)
 Theorem C15_inner_triangle_pass_keeps_every_cell : forall m, incl (map fst (mcells m)) (map fst (mcells (inner_triangles m))).
 Proof. exact inner_triangles_keep_every_cell. Qed.
+(* the state create_lattice starts from (built from the kept contours) lists every vertex on the cells it occurs in: that premise of the
+   contraction theorem holds there by construction *)
+Theorem C15_starting_state_registers_cells : forall st v c, In v (vids (mesh_of_lattice st)) ->
+  In v (aget [] c (mcells (mesh_of_lattice st))) -> In c (aget [] v (ownC (mesh_of_lattice st))).
+Proof. intros st v c Hv. exact (mesh_of_lattice_registered st v Hv c). Qed.
 (* non-vacuity: a triangle 1-2-3 between the cells 10, 11, 12 with one outgoing mesh edge per corner is contracted to vertex 7 *)
 Example C15_contraction_example :
   let m := mkM [1; 2; 3; 4; 5; 6] [(1, [0; 2; 3]); (2, [0; 1; 4]); (3, [1; 2; 5]); (4, [3]); (5, [4]); (6, [5])]
@@ -136,3 +141,4 @@ Print Assumptions C15_artefacts_consist_of_artefact_vertices.
 Print Assumptions C15_contraction_leaves_no_artefact_vertex_in_a_cell.
 Print Assumptions C15_removal_of_isolated_cells_invents_no_cell.
 Print Assumptions C15_inner_triangle_pass_keeps_every_cell.
+Print Assumptions C15_starting_state_registers_cells.
